@@ -344,6 +344,9 @@ def run_specs(rep, ctx, prop):
                  % (sp['kind'], sp.get('fn') or '%d functions' % len(sp['fns']), sp['id']))
         run_spec(rep, ctx.g, sp, sp['rule'], lenient=getattr(ctx, 'variant', None) in FEATURE_SET_NAMES)
         n += 1
+    if getattr(ctx, 'variant', None) not in FEATURE_SET_NAMES:
+        from .dwconst import run_K0
+        run_K0(rep, ctx.g, prop)
     return n
 
 
